@@ -97,6 +97,11 @@ type Req struct {
 	CloseAfter      int           // if >0: close the connection after sending this many body bytes
 	Watchdog        time.Duration // default 120s
 	FreshConn       bool
+	// slow client: pause once for StallFor after StallWriteAfter bytes of the body were sent / after StallReadAfter
+	// bytes of the response body were read (0 = no pause on that side)
+	StallWriteAfter int
+	StallReadAfter  int
+	StallFor        time.Duration
 }
 
 // Built is the fully signed request about to go on the wire.
@@ -538,7 +543,7 @@ func (c *Client) Send(b *Built, r *Req) *Resp {
 	if wd == 0 {
 		wd = defaultWatchdog
 	}
-	fresh := r.FreshConn || r.CloseAfter > 0 || r.Fragments != nil
+	fresh := r.FreshConn || r.CloseAfter > 0 || r.Fragments != nil || r.StallFor > 0
 	for attempt := 0; ; attempt++ {
 		cn, reused, err := c.getConn(fresh)
 		if err != nil {
@@ -601,7 +606,16 @@ func (c *Client) roundTrip(cn *conn, head []byte, b *Built, r *Req, wd time.Dura
 	werrCh := make(chan error, 1)
 	go func() {
 		var werr error
-		if r.Fragments == nil {
+		if r.StallWriteAfter > 0 && r.StallWriteAfter < len(body) && r.StallFor > 0 {
+			_, werr = cn.c.Write(head)
+			if werr == nil {
+				_, werr = cn.c.Write(body[:r.StallWriteAfter])
+			}
+			if werr == nil {
+				time.Sleep(r.StallFor)
+				_, werr = cn.c.Write(body[r.StallWriteAfter:])
+			}
+		} else if r.Fragments == nil {
 			// single write of head+body for small requests (keeps one segment)
 			if len(head)+len(body) <= 64<<10 {
 				_, werr = cn.c.Write(append(append([]byte{}, head...), body...))
@@ -646,7 +660,24 @@ func (c *Client) roundTrip(cn *conn, head []byte, b *Built, r *Req, wd time.Dura
 		}
 		return &Resp{Err: err}, true, false
 	}
-	data, rerr := io.ReadAll(hr.Body)
+	var data []byte
+	var rerr error
+	if r.StallReadAfter > 0 && r.StallFor > 0 {
+		first := make([]byte, r.StallReadAfter)
+		var n int
+		n, rerr = io.ReadFull(hr.Body, first)
+		data = first[:n]
+		if rerr == io.ErrUnexpectedEOF || rerr == io.EOF {
+			rerr = nil
+		} else if rerr == nil {
+			time.Sleep(r.StallFor)
+			var rest []byte
+			rest, rerr = io.ReadAll(hr.Body)
+			data = append(data, rest...)
+		}
+	} else {
+		data, rerr = io.ReadAll(hr.Body)
+	}
 	hr.Body.Close()
 	res := &Resp{Status: hr.StatusCode, Header: hr.Header, Body: data}
 	if rerr != nil {
